@@ -154,6 +154,9 @@ func c05RunReq(c hx.Case) any {
 		in := c05ReqInput(rm)
 		in.Route = route
 		in.Options = &openapi3filter.Options{ExcludeRequestQueryParams: jbool(cm, "excludeQuery"), MultiError: jbool(cm, "multi")}
+		if jbool(cm, "nilOptions") && !jbool(cm, "excludeQuery") && !jbool(cm, "multi") {
+			in.Options = nil // ValidateRequest supplies &Options{}
+		}
 		err := openapi3filter.ValidateRequest(context.Background(), in)
 		var me openapi3.MultiError
 		switch {
@@ -276,6 +279,13 @@ func c05ReqKeys() []c05ReqKey {
 			},
 			values: []any{nil, "7", "x", ".7", "12"},
 		},
+		{ // query id: the same NAME as the path parameter in another location — never an override of it
+			variants: []map[string]any{
+				c05ReqPD("query", "form", true, "id", false, c05PS("string")),
+				c05ReqPD("query", "form", true, "id", true, intS("max", 9)),
+			},
+			values: []any{nil, "7", "x", "12"},
+		},
 		{ // cookie ck
 			variants: []map[string]any{
 				c05ReqPD("cookie", "form", false, "ck", false, intS()),
@@ -357,7 +367,7 @@ func c05GenReq(ctx *hx.Ctx, emit func(hx.Case)) {
 			}
 		}
 	}
-	// (2) seeded stream over all five keys: random declarations on both levels, shuffled lists, 1–4 calls with random
+	// (2) seeded stream over all six keys: random declarations on both levels, shuffled lists, 1–4 calls with random
 	// options and random requests
 	n := 2500
 	if ctx.Thorough() {
@@ -391,6 +401,10 @@ func c05GenReq(ctx *hx.Ctx, emit func(hx.Case)) {
 					vals[ki] = hx.Pick(r, k.values)
 				}
 				rq = c05ReqMake(keys, vals)
+			}
+			if r.Chance(12) {
+				calls = append(calls, map[string]any{"excludeQuery": false, "multi": false, "nilOptions": true, "req": rq})
+				continue
 			}
 			calls = append(calls, map[string]any{"excludeQuery": r.Chance(35), "multi": r.Chance(50), "req": rq})
 		}
